@@ -14,6 +14,7 @@
 package peerstream
 
 import (
+	"os"
 	"errors"
 	"fmt"
 	"sort"
@@ -138,6 +139,7 @@ type zvWorld struct {
 	peer     string
 	pidx     int
 	idBase   int
+	idless   bool // an exporter whose nodes were registered without node IDs
 	fresh    int
 	nodes    map[string]*zvNd
 	insts    map[string]*zvIn // svc|node|id
@@ -148,6 +150,7 @@ type zvWorld struct {
 
 func zvNewWorld(peer string, pidx int, idBase int, r *core.Rand) *zvWorld {
 	w := &zvWorld{peer: peer, pidx: pidx, idBase: idBase, nodes: map[string]*zvNd{}, insts: map[string]*zvIn{}, exported: map[string]bool{}}
+	w.idless = r.Chance(35)
 	for _, s := range zvBaseSvcs {
 		w.exported[s] = r.Chance(90)
 	}
@@ -183,7 +186,9 @@ func (w *zvWorld) node(name string, r *core.Rand) *zvNd {
 	if r.Chance(25) {
 		n.Checks["disk"] = &zvChk{ID: "disk", Name: "node-disk", Status: api.HealthWarning}
 	}
-	if r.Chance(8) {
+	// externally registered nodes carry no node ID; a whole exporter without IDs (every third
+	// world) makes several ID-less nodes carry the same service IDs
+	if r.Chance(8) || w.idless {
 		n.ID = ""
 	}
 	w.nodes[name] = n
@@ -250,6 +255,15 @@ func (w *zvWorld) addRandom(r *core.Rand) (string, []string) {
 	if r.Chance(35) {
 		in.Checks["chk-"+id] = &zvChk{ID: "chk-" + id, Name: "tcp", Status: zvStatus(r), Output: "ok"}
 	}
+	if w.idless {
+		// ID-less exporters model a fleet of identical instances (same service ID on every node, same
+		// port, a version tag only): rolling upgrades make instances on different nodes EQUAL
+		in.ID = svc + "-1"
+		in.Port, in.Meta = 8000, nil
+		in.Tags = []string{"v" + fmt.Sprint(r.Intn(2))}
+		in.Checks = map[string]*zvChk{in.ID + ":overall-check": {ID: in.ID + ":overall-check", Name: "overall-check", Status: api.HealthPassing}}
+		id = in.ID
+	}
 	w.insts[zvInstKey(svc, node, id)] = in
 	return fmt.Sprintf("add %s on %s", id, node), []string{svc}
 }
@@ -287,6 +301,15 @@ func (w *zvWorld) mutate(r *core.Rand) (string, []string) {
 		return fmt.Sprintf("move %s from %s to %s", in.ID, from, to), []string{in.Svc}
 	case op < 56: // change instance fields
 		in := w.insts[core.Pick(r, keys)]
+		if w.idless {
+			// rolling upgrade of an identical-instance fleet: only the version tag moves
+			if len(in.Tags) == 1 && in.Tags[0] == "v0" {
+				in.Tags = []string{"v1"}
+			} else {
+				in.Tags = []string{"v0"}
+			}
+			return "upgrade " + in.ID + " on " + in.Node, []string{in.Svc}
+		}
 		switch r.Intn(4) {
 		case 0:
 			in.Port++
@@ -311,8 +334,10 @@ func (w *zvWorld) mutate(r *core.Rand) (string, []string) {
 		case 3:
 			n.Meta = nil
 		case 4: // node replaced: same name, fresh ID
-			w.fresh++
-			n.ID = zvUUID(w.idBase + 100 + w.fresh)
+			if !w.idless {
+				w.fresh++
+				n.ID = zvUUID(w.idBase + 100 + w.fresh)
+			}
 		default:
 			n.DC = "dc-" + w.peer + fmt.Sprint(r.Intn(2))
 		}
@@ -436,6 +461,15 @@ func (w *zvWorld) snapshot(svc string) (*pbpeerstream.ExportedService, map[strin
 		pbn := &pbservice.Node{ID: n.ID, Node: n.Name, Address: n.Addr, Datacenter: n.DC, TaggedAddresses: zvCopyMap(n.TAddr), Meta: zvCopyMap(n.Meta), PeerName: w.pbPeer}
 		pbs := &pbservice.NodeService{ID: in.ID, Service: in.Svc, Tags: append([]string(nil), in.Tags...), Address: in.Addr, Meta: zvCopyMap(in.Meta),
 			Port: int32(in.Port), PeerName: w.pbPeer, EnterpriseMeta: &pbcommon.EnterpriseMeta{}}
+		// what an exporter's store-sourced snapshot always carries (without it the importer never
+		// recognises an unchanged instance and its skip-unchanged path is not exercised)
+		pbs.Weights = &pbservice.Weights{Passing: 1, Warning: 1}
+		if pbs.Meta == nil {
+			pbs.Meta = map[string]string{}
+		}
+		if pbs.Tags == nil {
+			pbs.Tags = []string{}
+		}
 		kind, dest, destID := "", "", ""
 		var sni []string
 		if strings.HasSuffix(svc, zvProxySuffix) {
@@ -634,6 +668,7 @@ func zvSharedIndexAllowed(key string) bool {
 // ---------------------------------------------------------------------------------------------
 
 type zvHist struct {
+	script []zvScriptStep
 	run     *core.Run
 	h       int
 	r       *fsmkit.Replica
@@ -841,16 +876,37 @@ func (z *zvHist) step(step int, r *core.Rand) {
 	run := z.run
 	st := z.r.State()
 	pidx := r.Intn(2)
+	var scripted *zvScriptStep
+	if len(z.script) > 0 {
+		scripted = &z.script[0]
+		z.script = z.script[1:]
+		pidx = 0
+	}
 	peer := zvPeers[pidx]
 	w := z.worlds[peer]
 
 	// the exporter's catalog moves on
 	var touched []string
 	var muts []string
-	for i, n := 0, 1+r.Intn(3); i < n; i++ {
+	if scripted != nil {
+		muts = append(muts, scripted.mut(w))
+		touched = append(touched, scripted.svc)
+	}
+	for i, n := 0, 1+r.Intn(3); i < n && scripted == nil; i++ {
 		d, t := w.mutate(r)
 		muts = append(muts, d)
 		touched = append(touched, t...)
+		if w.idless && strings.HasPrefix(d, "upgrade ") {
+			run.Count("idless-fleet-upgrade-steps")
+			// does the upgraded instance now equal a same-ID instance on another ID-less node?
+			for _, a := range w.insts {
+				for _, b := range w.insts {
+					if a != b && a.ID == b.ID && a.Node != b.Node && fmt.Sprint(a.Tags) == fmt.Sprint(b.Tags) && strings.Contains(d, a.ID+" on "+a.Node) {
+						run.Count("idless-fleet-upgrade-makes-twin-equal")
+					}
+				}
+			}
+		}
 	}
 
 	kind := "upsert"
@@ -858,9 +914,16 @@ func (z *zvHist) step(step int, r *core.Rand) {
 		kind = "list"
 	}
 	var svc string
+	if scripted != nil {
+		kind = "upsert"
+		w.exported[zvBase(scripted.svc)] = true
+	}
 	if kind == "upsert" {
 		var cands []string
-		if r.Chance(85) {
+		if scripted != nil {
+			cands = []string{scripted.svc}
+		}
+		if r.Chance(85) && scripted == nil {
 			for _, s := range touched {
 				if w.exported[zvBase(s)] {
 					cands = append(cands, s)
@@ -972,6 +1035,9 @@ func (z *zvHist) step(step int, r *core.Rand) {
 			viol("C17:mirror:malformed-entry", fmt.Sprintf("CheckServiceNodes(%s, %s): %s", s, peer, p), nil)
 		}
 		exp := lm[s]
+		if scripted != nil && s == svc && os.Getenv("VERIF_C17_DEBUG") != "" {
+			fmt.Printf("DEBUG h%d %v\n  obs=%s\n  exp=%s\n  ops=%v\n", z.h, muts, core.JSON(obs), core.JSON(exp), z.ops)
+		}
 		full := kind == "upsert" && s == svc
 		pre := "C17:mirror:"
 		if !full {
@@ -1316,6 +1382,48 @@ func zvHas(xs []string, x string) bool {
 	return false
 }
 
+// zvScriptStep forces one exporter mutation followed by an upsert of one service (deterministic
+// scenario families run through the same oracles as the random histories)
+type zvScriptStep struct {
+	mut func(w *zvWorld) string
+	svc string
+}
+
+// zvFleetScript: a fleet of identical instances (same service ID, externally registered nodes without
+// node IDs) is rolled from v0 to v1 node by node and then scaled out onto a third node.
+func zvFleetScript(svc string, order []string) []zvScriptStep {
+	set := func(node, tag string) func(w *zvWorld) string {
+		return func(w *zvWorld) string {
+			w.idless = true
+			n := w.node(node, core.NewRand(1))
+			n.ID = ""
+			id := svc + "-1"
+			w.insts[zvInstKey(svc, node, id)] = &zvIn{Svc: svc, Node: node, ID: id, Port: 8000, Tags: []string{tag}, Checks: map[string]*zvChk{}}
+			return fmt.Sprintf("fleet: %s on %s = %s", id, node, tag)
+		}
+	}
+	reset := func(w *zvWorld) string {
+		w.idless = true
+		for k, in := range w.insts {
+			if in.Svc == svc {
+				delete(w.insts, k)
+			}
+		}
+		for _, n := range w.nodes {
+			n.ID = ""
+		}
+		return "fleet: reset " + svc
+	}
+	a, b, c := order[0], order[1], order[2]
+	return []zvScriptStep{
+		{func(w *zvWorld) string { return reset(w) + "; " + set(a, "v0")(w) + "; " + set(b, "v0")(w) }, svc},
+		{set(b, "v1"), svc},
+		{set(a, "v1"), svc},
+		{set(c, "v1"), svc},
+		{set(a, "v0"), svc},
+	}
+}
+
 func zvRunHistory(run *core.Run, h int, r *core.Rand, steps int) {
 	z := &zvHist{run: run, h: h, mst: map[string]*MutableStatus{}, worlds: map[string]*zvWorld{}, last: map[string]map[string]map[string]zvEnt{},
 		sentLst: map[string][]string{}, localID: map[string]string{}}
@@ -1354,6 +1462,11 @@ func zvRunHistory(run *core.Run, h int, r *core.Rand, steps int) {
 	for s := 0; s < steps && !z.dead && run.Violations() < 30; s++ {
 		if r.Chance(20) {
 			z.localMutation(r)
+		}
+		// every 10th history: after a few random updates run the fleet scenario, then go on randomly
+		if h%10 == 3 && s == 4 {
+			z.script = zvFleetScript(zvSvcNames[h/10%len(zvSvcNames)], [][]string{{"n1", "n2", "n3"}, {"n2", "n1", "n3"}, {"n3", "n1", "n2"}}[h/10%3])
+			run.Count("fleet-scenarios")
 		}
 		z.step(s, r)
 	}
